@@ -49,7 +49,7 @@ PROPS = {
                 assumptions=["hypotheses of the theorem: g preserves < and == on the matrix values and maps the sentinels to the sentinels"]),
     "C11": dict(streams=[ALGO], oracles=[dict(name="permute", profiles=["debug"])],
                 assumptions=["permutation invariance is a theorem for primitive (tie-free runs, any commutative carrier / strict weak order), for generic through primitive_generic_agree, and for Method::Single through every entry point with ties (cuts); nnchain/mst with arithmetic methods and float commutativity instances are measured by the oracle"]),
-    "C12": dict(streams=[ALGO2, HIST], oracles=[dict(name="safety", profiles=["debug", "release"])],
+    "C12": dict(streams=[ALGO2, HIST], oracles=[dict(name="safety", profiles=["debug", "release"])], extras=["overflow_band"],
                 assumptions=["totality is a theorem for mst, primitive, nnchain (strict weak order + reducibility) and generic (strict weak order + reflexive == + no-overflow closure); for arithmetic methods on floats those hypotheses and finiteness of outputs are measured, not proved"]),
     "C14": dict(streams=[("cost", ["debug"])], translators=["tables"], oracles=[dict(name="cost", profiles=["debug"])],
                 assumptions=["nnchain bound theorem needs a strict weak order and reducibility (single/complete generic; average/weighted/ward over Q); on floats with arithmetic methods the bound is measured (count equality with the model + adversarial search)"]),
@@ -57,7 +57,7 @@ PROPS = {
         streams=[ALGO, HIST],
         translators=["formulas"],
         oracles=[dict(name="slot_probe", profiles=["debug", "release"])],
-        assumptions=["no-wrap theorem hypothesis n < 2^32"],
+        assumptions=["no-wrap theorem hypothesis n < 2^32; first/second-step theorems are for Method::Single (strict weak order, finite entries; float instances through Flocq)"],
     ),
     "C08": dict(
         streams=[HIST, ALGO, COMP],
